@@ -39,7 +39,7 @@ ASSUMPTIONS = ['_RangeIterator read-ahead size is >= 1 (max_batch_size >= 1).',
 
 
 def run(ctx: Ctx):
-  for r in (r1, r2, r3, r4, r6, r7, r8, r9, r10, r12, r13):
+  for r in (r1, r2, r3, r4, r6, r7, r8, r9, r10, r12, r13, r14):
     ctx.guard(r)
   from mlmverif.props import c10
   ctx.include('R-C09-11', '"rebuilding a shard from its recorded state yields the same'
@@ -926,10 +926,84 @@ def r13(ctx: Ctx):
   ctx.floor(rule, 1, n)
 
 
+def r14(ctx: Ctx):
+  rule = 'R-C09-14'
+  ctx.rule(rule, '"indexes ... exactly like their concatenation": ONE function maps a flat position to (sub-sequence,'
+           ' offset) — MergedSequences._index, whose table and bucket arithmetic R-C09-7/8/13 decide. The (sub-sequence,'
+           ' offset) pairs are constructed nowhere else in the class, and every element read `self._sequences[a][b]` takes'
+           ' a and b from one `_index` result. A second mapper (a "last hit" fast path with remembered bounds, say) is an'
+           ' unverified copy of the arithmetic: with a one-sided bound test the offset goes negative, Python wraps it'
+           ' around silently and merged[i] depends on what was read before. (Layering rule: a second correct mapper would'
+           ' have to be added to the verified set.) Readers also keep no state: __getitem__/slice/_index/__len__/__iter__'
+           ' store no attribute of self')
+  repo = ctx.repo
+  ci = repo.cls('utils.iter_utils', 'MergedSequences')
+  idx = ci.methods.get('_index')
+  if idx is None:
+    raise AnalysisError('MergedSequences._index not found')
+  pair_ctor = None
+  for r in ast.walk(idx.node):
+    if isinstance(r, ast.Return) and isinstance(r.value, ast.Call) and isinstance(r.value.func, ast.Name):
+      pair_ctor = r.value.func.id
+  if pair_ctor is None:
+    raise AnalysisError('MergedSequences._index does not return a constructed (sub-sequence, offset) pair')
+  n = 0
+  for name, fi in ci.methods.items():
+    if name == '_index':
+      continue
+    n += 1
+    made = [c for c in ast.walk(fi.node) if isinstance(c, ast.Call) and isinstance(c.func, ast.Name) and c.func.id == pair_ctor]
+    what = f'MergedSequences.{name}: positions are mapped by _index only'
+    if made:
+      ctx.fail(rule, fi, what,
+               f'MergedSequences.{name} builds `{unparse(made[0])[:80]}` itself: a second flat-position -> (sub-sequence, offset)'
+               ' mapping next to _index. Its bounds are not the verified bucket arithmetic; an offset that is not provably'
+               ' within [0, len(sub-sequence)) reads a wrong element silently (a negative offset wraps around)', node=made[0])
+      continue
+    bad = None
+    results = {t.id for x in ast.walk(fi.node) if isinstance(x, ast.Assign) and isinstance(x.value, ast.Call)
+               and unparse(x.value.func) == 'self._index' for t in x.targets if isinstance(t, ast.Name)}
+    for sub in ast.walk(fi.node):
+      if isinstance(sub, ast.Subscript) and isinstance(sub.value, ast.Subscript) and is_self_attr(sub.value.value, '_sequences'):
+        a, b = sub.value.slice, sub.slice
+        roots = set()
+        for e in (a, b):
+          root = e
+          while isinstance(root, ast.Attribute):
+            root = root.value
+          roots.add(root.id if isinstance(root, ast.Name) else None)
+        if len(roots) != 1 or None in roots or not (roots <= results):
+          bad = sub
+    stores = [t for x in ast.walk(fi.node) if isinstance(x, (ast.Assign, ast.AugAssign, ast.AnnAssign))
+              for t in (x.targets if isinstance(x, ast.Assign) else [x.target]) if is_self_attr(t)]
+    if bad is not None:
+      ctx.fail(rule, fi, what,
+               f'`{unparse(bad)}` in MergedSequences.{name} does not take the sub-sequence and the offset from one'
+               ' self._index(...) result', node=bad)
+    elif stores and name in ('__getitem__', 'slice', '__len__', '__iter__', '_index_slice'):
+      ctx.fail(rule, fi, f'MergedSequences.{name}: readers keep no state',
+               f'MergedSequences.{name} stores `{unparse(stores[0])}`: a read changes the object, so the next read can depend on it'
+               ' (merged[i] must be a function of i alone)', node=stores[0])
+    else:
+      ctx.ok(rule, fi, what, fi.node)
+  ctx.floor(rule, 5, n)
+
+
 from mlmverif.selfcheck import B, OK  # noqa: E402
 
 _F = 'chainables/io.py'
 VARIANTS = [
+    B('getitem-last-hit-fast-path', 'utils/iter_utils.py',
+      '    multi_idx = self._index(index)\n    try:\n      return self._sequences[multi_idx.seq_idx][multi_idx.idx]',
+      '    seq_idx, seq_start, seq_stop = getattr(self, "_last_hit", (0, 0, 0))\n    if 0 <= index < seq_stop:\n      multi_idx = _MergedSequenceIndex(seq_idx, index - seq_start)\n    else:\n      multi_idx = self._index(index)\n    self._last_hit = (multi_idx.seq_idx, *self._seq_idxs[multi_idx.seq_idx : multi_idx.seq_idx + 2])\n    try:\n      return self._sequences[multi_idx.seq_idx][multi_idx.idx]',
+      'R-C09-14'),
+    B('getitem-mixes-two-lookups', 'utils/iter_utils.py',
+      '    multi_idx = self._index(index)\n    try:\n      return self._sequences[multi_idx.seq_idx][multi_idx.idx]',
+      '    multi_idx = self._index(index)\n    first = self._index(0)\n    try:\n      return self._sequences[first.seq_idx][multi_idx.idx]',
+      'R-C09-14'),
+    OK('getitem-unpacks-the-lookup', 'utils/iter_utils.py',
+       '    multi_idx = self._index(index)\n    try:\n      return self._sequences[multi_idx.seq_idx][multi_idx.idx]',
+       '    where = self._index(index)\n    try:\n      return self._sequences[where.seq_idx][where.idx]'),
     B('slice-start-offset-on-every-piece', 'utils/iter_utils.py',
       '    sequences = [self._index_slice(start.seq_idx, start.idx, None)]\n    for i_seq in range(start.seq_idx + 1, stop.seq_idx):\n      sequences.append(self._index_slice(i_seq))',
       '    sequences = [\n        self._index_slice(i_seq, start.idx)\n        for i_seq in range(start.seq_idx, stop.seq_idx)\n    ]', 'R-C09-12'),
